@@ -432,9 +432,10 @@ func (c *ctxConn) Read(b []byte) (n int, err error) {
 }
 
 func (c *ctxConn) Write(b []byte) (n int, err error) {
+	written := 0
 	for {
 		if err = c.writeCtx.Err(); err != nil {
-			return 0, err
+			return written, err
 		}
 
 		deadline := time.Now().Add(c.writeTimeout)
@@ -448,15 +449,17 @@ func (c *ctxConn) Write(b []byte) (n int, err error) {
 			return 0, err
 		}
 
-		n, err = c.conn.Write(b)
+		n, err = c.conn.Write(b[written:])
+		written += n
 		if err != nil {
 			if netErr, ok := err.(net.Error); ok && netErr.Timeout() && netErr.Temporary() {
+				// Resume after the bytes that were already written
 				continue
 			}
-			return 0, err
+			return written, err
 		}
 
-		return n, nil
+		return written, nil
 	}
 }
 
